@@ -271,11 +271,21 @@ def gen_pre(rng, n_cases, big):
     return out
 
 
+# witnesses of the binary64 theorems C20_aabb_float_inside_implies_real_inside_binary64_refuted (centre -2^-54, half 1, point 1:
+# isInside accepts a point outside the real box by 2^-54) and C20_aabb_interval_roundtrip_binary64_refuted ([2^-55, 1] comes back
+# as [0, 1]), embedded in 2D; replayed on the implementation in every run (the model's verdict on them is the theorem)
+FLOAT_WITNESSES = [
+    "aabbc f64 2 %s %s 1 %s" % (hv([-2.0 ** -54, 0.0]), hv([1.0, 1.0]), hv([1.0, 0.0])),
+    "aabbi f64 2 %s %s 1 %s" % (hv([2.0 ** -55, 0.0]), hv([1.0, 1.0]), hv([0.5, 0.5])),
+]
+
+
 def gen(rng, tier):
     big = tier == "thorough"
     m = 8 if big else 1
     return [("aabb", gen_aabb(rng, 1500 * m)), ("obb", gen_obb(rng, 1500 * m)), ("interval", gen_ival(rng, 1200 * m)),
-            ("containers", gen_cont(rng, 500 * m, True)), ("preconditioner", gen_pre(rng, 700 * m, True))]
+            ("containers", gen_cont(rng, 500 * m, True)), ("preconditioner", gen_pre(rng, 700 * m, True)),
+            ("float-witnesses", FLOAT_WITNESSES)]
 
 
 # --------------------------------------------------------------------------------------------- parsing
@@ -560,20 +570,44 @@ CHECK = {
             "and +-1/8 (dyadic data: the closed/open distinction is exact); oriented boxes with exact (signed-permutation) and "
             "general proper rotations, 2D and 3D; interval pairs nested/disjoint/touching/overlapping in 1D, 2D, 3D; point sets of "
             "1..1000 points in every octant pattern including all-negative and planar sets, float and double, vector/deque/list "
-            "containers, Cartesian and homogeneous point types.  Non-trivial = a box/interval case showing both verdicts, a set of >= 2 points",
-    "trusted": ["hand-written model coq/BoxModel.v tied by differential execution (this run)",
+            "containers, Cartesian and homogeneous point types; the two witnesses of the binary64 _refuted theorems.  Non-trivial = a box/interval case showing both verdicts, a set of >= 2 points",
+    "trusted": ["translate/tr_C20_boxes.py (clang JSON AST of the instantiated templates -> gen/SrcBoxes.v; per-axis scalar reading of Eigen "
+                "fixed-size expressions, matrix-product component = left-to-right sum of products, maxCoeff = left fold of std::max); "
+                "the tie lemmas coq/SrcTieC20.v are proved, not trusted",
+                "the differential run still covers what the translator does not: float (binary32) and homogeneous-point instantiations, "
+                "the EigenContainers min/max/mean helpers, Interval<Scalar,1>, and Eigen's actual evaluation order",
                 "extraction (ExtrOcamlBasic), ocaml/numf.ml, ocaml/drv_C20.ml", "harness/C20.cpp, python oracle in checks/C20.py",
-                "Eigen coefficient-wise expressions (min/max/abs/all/prod/maxCoeff, operator/=) read as their scalar definitions"],
+                "Flocq's formalisation of IEEE-754 rounding (binary64/binary32 without overflow) for the *_binary64/32 theorems"],
     "manifest": {
-        "text": "Theorems over the reals about the Gallina model of AxisAlignedBoundingBox, OrientedBoundingBox, Interval, the "
-                "container min/max/mean helpers and PointSetPreconditioner::compute; the model's float instances are executed against "
-                "the real classes on generated cases, and the property's own statement is evaluated in exact rational arithmetic on "
-                "the implementation's outputs.",
-        "note": "Trusted: Coq kernel; real-number axioms of the standard library; hand-written model tied only by differential "
-                "execution; extraction; float dictionary; harness and oracle. Floating-point rounding is observed, not proved: inside a "
-                "few ulps of a face either containment verdict is accepted. min/max of EigenContainers.hpp only instantiate for "
-                "Eigen::Array element types (they do not compile for Eigen::Matrix points); they are exercised with Array types.",
-        "technique": "Coq proof (induction over point lists, real arithmetic) + extracted-model correspondence run",
+        "text": "SYNTACTIC TIE: on every run translate/tr_C20_boxes.py regenerates Gallina terms (coq/gen/SrcBoxes.v) from the clang JSON AST "
+                "of the class templates instantiated at double, DIM = 2 and 3 - AxisAlignedBoundingBox (both constructors, isInside, "
+                "toInterval, getters), OrientedBoundingBox (constructor, getters, isInside in the box frame, the per-column |R(i,k)|*half(k) "
+                "accumulation loop of toAxisAlignedBoundingBox unrolled), Interval<double,2|3> (constructor, lower, upper, width, center, "
+                "include, inside) and PointSetPreconditioner<Vector2d|Vector3d>::compute (the loop over the points as one fold over the "
+                "list: running min / max / sum from numeric_limits max() / lowest() / 0, mean, scale = 1/maxCoeff(max-min), translation) - "
+                "and coq/SrcTieC20.v proves the generated terms EQUAL to the BoxModel.v functions the theorems are about, for every numeric "
+                "dictionary satisfying five literal laws (reals, rounded binary64, rounded binary32): theorems C20_source_tie_* (9), plus "
+                "end-to-end statements about the generated terms themselves (closed-box containment; the preconditioner reports the true "
+                "extrema and centroid whatever its members held before). Theorems over the reals about that model (interval<->box round "
+                "trip, closed containment iff, OBB containment = rigid image, OBB->AABB encloses and is tight, hull, extents / centroid / "
+                "scale of every non-empty set; the pre-fix code refuted). FLOATING-POINT theorems (Flocq, binary64 and binary32, "
+                "C20_*_binary64/32): running min/max and the preconditioner extents are exact for every non-empty finite point list; "
+                "isInside <-> |rnd(p-c)| <= h, real-inside => float-inside with no margin, float-inside => real-inside within ulp(h)/2 (and a "
+                "witness that the margin is needed), exact when p-c is representable (Sterbenz); the interval form is exact; interval->box->"
+                "interval error <= 6*2^-53*max(|lo|,|hi|) + 5*2^-1075 for all bounds, exact on representable data, and NOT the identity in "
+                "general ([2^-55,1] comes back as [0,1]). The model's float instances are also executed against the real classes on "
+                "generated cases, and the property's own statement is evaluated in exact rational arithmetic on the implementation's outputs.",
+        "note": "Trusted: Coq kernel; real-number axioms of the standard library; the translator's reading of Eigen fixed-size expressions "
+                "(coefficient-wise operators, matrix product as sum of products, reductions as folds over the axes, numeric_limits as the "
+                "dictionary constants) and clang; Flocq's rounding model without overflow; extraction; float dictionary; harness and oracle. "
+                "Tied syntactically at double, DIM 2/3 only: the float, homogeneous-point, Interval<Scalar,1> instantiations and the "
+                "EigenContainers min/max/mean helpers are tied by differential execution only (same template text for the former). "
+                "The tie is robust to renaming, hoisting, statement reordering, commuting + and *, flipped comparisons, cwiseAbs/range-for "
+                "spellings; a re-association is refused (it is not an identity in floating point) and reported without a failing input. "
+                "Rounding inside Eigen's OBB product is observed, not proved: inside a few ulps of an OBB face either verdict is accepted. "
+                "min/max of EigenContainers.hpp only instantiate for Eigen::Array element types; they are exercised with Array types.",
+        "technique": "Coq proof (induction over point lists, real arithmetic, Flocq rounding analysis) + source-to-Gallina translator from "
+                     "the clang AST with proved tie lemmas + extracted-model correspondence run + exact-rational property oracle",
     },
     "coverage_extra": lambda: {"notes": [
         "romea::core::min / max (EigenContainers.hpp) call .min(point) / .max(point) on the element type: they do not compile for "
